@@ -447,7 +447,8 @@ const README_SCOPE_PROBES: [&str; 8] = [
 /// What a body must *not* see (and the few things it must): a name that exists close by — as a field
 /// of the receiver or of the first argument, as a local of the caller or of the block that created
 /// the object, as a parameter of another body — is still unknown.
-const VISIBILITY_PROBES: [&str; 19] = [
+const VISIBILITY_PROBES: [&str; 20] = [
+    "function point(a, b) -> object begin let x = a; let y = b; end;\nlet x = 5;\nlet p = point(x, x + 1);\nx <- p.x + p.y;\nprint(\"~ ~\\n\", x, p);\nlet holder = object begin let later = 1; function later() -> 2; end;\nlet later = 3;\nfunction later() -> 4;\nbegin let y = 9; print(\"~ ~ ~ ~ ~ ~\\n\", y, p.y, later, later(), holder.later, holder.later()) end;\nfunction uses(y) -> y + p.y;\nprint(\"~\\n\", uses(100));\n",
     "let o = object begin let count = 10; function peek() -> count; end;\nprint(\"a\\n\");\no.peek();\nprint(\"b\\n\");\n",
     "let o = object begin let count = 10; function bump() -> count <- count + 1; end;\nprint(\"a\\n\");\no.bump();\nprint(\"b ~\\n\", o);\n",
     "let o = object begin let count = 10; function set(v) -> count <- v; end;\nprint(\"a\\n\");\no.set(3);\nprint(\"b ~\\n\", o);\n",
@@ -524,6 +525,24 @@ pub fn c12(ctx: &Ctx, rep: &mut Report) {
                     rep.bump("c12-size", "readme-probes");
                 }
                 Err(e) => rep.inconsistency(format!("README scoping probe {} does not parse: {}", k, e)),
+            }
+        }
+        // the fixed stress shapes that are about scopes and names
+        for (name, src) in stress_sources() {
+            let wanted = [
+                "tail-call-shapes", "shadowing-four-levels", "one-name-everywhere", "fresh-locals-per-call", "let-inside-argument-inside-field-initializer", "fields-named-like-later-globals",
+                "readme-array-size-let", "reentrant-methods-and-tail-calls", "definition-last-and-forward-call", "many-locals", "same-text-function-and-method",
+            ];
+            if !wanted.contains(&name.as_str()) {
+                continue;
+            }
+            if let Ok(ast) = real::parse(&src) {
+                let mut rng = ctx.rng("C12stress", 0);
+                let j = judge(rep, "C12", &format!("stress:{}", name), &ast, &src, &mut rng, JudgeOpts::full());
+                if !j.judged {
+                    rep.inconsistency(format!("fixed scoping shape {} is not judged by the reference: {:?}", name, j.outcome.res));
+                }
+                rep.bump("c12-size", "fixed scoping shapes");
             }
         }
     }
